@@ -9,6 +9,7 @@ import CookModel.Lemmas.CollectorStrictWB
 import CookModel.Lemmas.CollectorShape
 import CookModel.Lemmas.CollectorTextItems
 import CookModel.Lemmas.CollectorLast
+import CookModel.Lemmas.C06UnusedHome
 /-
   C06  The recipe model is referentially consistent.
 
@@ -813,5 +814,177 @@ example : ¬ LastI (α := Rat) exFoldEnv
       ⟨['a'], none, none, none, none, ⟨.reference 0, some .ingredient⟩, ⟨Modifiers.REF⟩⟩] := by
   intro h
   exact h 2 _ rfl 0 rfl 1 _ (by omega) (by omega) rfl ⟨by decide, by decide⟩
+
+/-! ### intermediate-reference targets of ingredients that NO pushed step uses (audit addition; Lemmas/C06UnusedHome.lean)
+
+  An ingredient written in a `[mode]: components` block is collected into the ingredient table while its
+  step is dropped; `C06_step_reference_target` / `C06_section_reference_target` speak only of ingredients
+  used by an item of a pushed step.  The recipe does not record where such an ingredient was written, so
+  the statements below are existential over a "home section" assignment `homes` (`C6uHomeOK`,
+  `C6uHomeUsed`), and `C06_unused_ingredient_target_located` spells the consequences out without it. -/
+
+/-- ingredient `k` is used by an item of a step of section number `si` of the recipe -/
+def UsedIn (c : Col α) (k si : Nat) : Prop :=
+  ∃ (sec : Section) (p : Nat) (st : Step), c.sections[si]? = some sec ∧ sec.content[p]? = some (.step st) ∧
+    Item.ingredient k ∈ st.items
+
+/-- every event keeps the home-section invariant: given a home assignment for the ingredients analysed so
+    far (`C6uHomeInv`: homes non-decreasing and at most the number of finished sections; a step target is a
+    step position of the section at the ingredient's home in `sections ++ [current_section]`; a section
+    target lies strictly below the home) there is one after the event — the old one, extended by "the
+    current section" when the event adds an ingredient.  If moreover a `Section` event never arrives while
+    a block is open, the homes of the ingredients used by items stay the sections of those items. -/
+theorem C06_unused_ingredient_target_invariant_step (env : Env) (input : Str) (ev : Ev α) (s : Col α)
+    (homes : List Nat) (hi : Inv env s) (h : C6uHomeInv s homes) (hev : EvOK ev) :
+    ∃ homes', C6uHomeInv (processEvent env input ev s).2 homes' ∧
+      ((ev.isSec = true → blockItems s.block = []) → C6uUsedInv s homes →
+        C6uUsedInv (processEvent env input ev s).2 homes') :=
+  (processEvent_trans env input ev s hi hev).c6u h
+
+/-- for ANY list of `EvOK` events (no bracketing hypothesis): the ingredients of the returned table — used
+    by a step or not — have a home assignment: `homes[k] ≤ sections.len()`, non-decreasing in `k`; if
+    ingredient `k` targets STEP `i` then `sections[homes[k]]` exists and its content has a step at position
+    `i`; if it targets SECTION `i` then `i < homes[k]` -/
+theorem C06_unused_ingredient_target_of_events (env : Env) (input : Str) (evs : List (Ev α)) (c : Col α)
+    (hev : ∀ ev ∈ evs, EvOK ev) (h : (parseEventsLoop env input evs {}).output = some c) :
+    ∃ homes, C6uHomeOK c.sections c.ingredients homes :=
+  parseEventsLoop_c6u env input evs {} c [] (Inv.init env) C6uHomeInv.init hev h
+
+/-- for ANY list of `EvOK` events whose `Section` events lie outside blocks: the home assignment can be
+    chosen so that an ingredient used by an item of a step of section `si` has home `si` -/
+theorem C06_unused_ingredient_target_homes_of_events (env : Env) (input : Str) (evs : List (Ev α)) (c : Col α)
+    (hev : ∀ ev ∈ evs, EvOK ev) (hw : SectionsOutsideBlocks evs)
+    (h : (parseEventsLoop env input evs {}).output = some c) :
+    ∃ homes, C6uHomeOK c.sections c.ingredients homes ∧ C6uHomeUsed c.sections homes :=
+  parseEventsLoop_c6u_used env input evs {} c none [] (Inv.init env) C6uHomeInv.init C6uUsedInv.init
+    (fun _ => rfl) hw hev h
+
+/-- **The step / section target of EVERY ingredient of the table — also one that no pushed step uses —
+    is tied to the sections of the returned recipe.**  In every recipe `parse` returns (valid or not, any
+    extensions, e.g. with `[mode]: components` blocks) there is an assignment `homes` of a section index to
+    every ingredient index (the section that was current when the ingredient was analysed, in the numbering
+    of the returned `sections`) such that
+    * `homes` has one entry per ingredient, is non-decreasing in the ingredient index (document order), and
+      `homes[k] ≤ sections.len()`;
+    * if ingredient `k`'s relation targets STEP `i`: `sections[homes[k]]` exists and
+      `sections[homes[k]].content[i]` is a step — the target computed against the then-current section is
+      still a step position of that section in the final recipe (that section had a step, so it was not
+      empty, so it was pushed; content only grows at the end);
+    * if it targets SECTION `i`: `i < homes[k]`, an existing section strictly before the home;
+    * an ingredient that IS used by an item of a step of section `si` has `homes[k] = si`
+      (`C6uHomeUsed`), which pins the home of an unused ingredient between the sections of the used
+      ingredients before and after it in the table.
+    What the recipe does not contain — and so no theorem can say — is WHICH section in that range an unused
+    ingredient was written in, and the position of "its" (dropped) step: the clause "an EARLIER step"
+    (`i < p`) has no `p` to refer to. -/
+theorem C06_unused_ingredient_target (env : Env) (input : Str) (c : Col α)
+    (h : (parseRecipe (α := α) env input).output = some c) :
+    ∃ homes, C6uHomeOK c.sections c.ingredients homes ∧ C6uHomeUsed c.sections homes :=
+  C06_unused_ingredient_target_homes_of_events env input _ c (pullEvents_evOK env.cs env.ext input)
+    (pullEvents_sectionsOutsideBlocks env.cs env.ext input) h
+
+/-- **The same without the home assignment.**  In every recipe `parse` returns, for EVERY ingredient `k`
+    of the table (used by a step or not):
+    * if its relation targets STEP `i`, some section `si` of the recipe has a step at content position `i`,
+      and `si` is not before the section of any used ingredient with a smaller-or-equal index nor after the
+      section of any used ingredient with a larger-or-equal index (for a used ingredient `si` is therefore
+      its own section, as in `C06_step_reference_target`);
+    * if it targets SECTION `i`, then `i < sections.len()` and `i` is strictly before the section of every
+      used ingredient with a larger-or-equal index. -/
+theorem C06_unused_ingredient_target_located (env : Env) (input : Str) (c : Col α)
+    (h : (parseRecipe (α := α) env input).output = some c)
+    (k : Nat) (ig : Ingredient (ScalableValue α)) (hk : c.ingredients[k]? = some ig) (i : Nat) :
+    (ig.relation = ⟨.reference i, some .step⟩ →
+      ∃ (si : Nat) (sec : Section) (st : Step), c.sections[si]? = some sec ∧ sec.content[i]? = some (.step st) ∧
+        (∀ k0 s0, UsedIn c k0 s0 → k0 ≤ k → s0 ≤ si) ∧ (∀ k1 s1, UsedIn c k1 s1 → k ≤ k1 → si ≤ s1)) ∧
+    (ig.relation = ⟨.reference i, some .section⟩ →
+      i < c.sections.length ∧ ∀ k1 s1, UsedIn c k1 s1 → k ≤ k1 → i < s1) := by
+  obtain ⟨homes, hok, hu⟩ := C06_unused_ingredient_target env input c h
+  have hklt : k < homes.length := by rw [hok.1]; exact lt_size_of_getElem? hk
+  have hx : homes[k]? = some homes[k] := List.getElem?_eq_getElem hklt
+  obtain ⟨h1, h2⟩ := hok.2.2.2 k ig _ hk hx i
+  refine ⟨fun hr => ?_, fun hr => ⟨((hok.exists_step k ig hk i).2 hr), ?_⟩⟩
+  · obtain ⟨sec, st, hs, hst⟩ := h1 hr
+    refine ⟨_, sec, st, hs, hst, ?_, ?_⟩
+    · rintro k0 s0 ⟨sec0, p0, st0, e1, e2, e3⟩ hle
+      exact hok.mono hle (hu s0 sec0 e1 p0 st0 e2 k0 e3) hx
+    · rintro k1 s1 ⟨sec1, p1, st1, e1, e2, e3⟩ hle
+      exact hok.mono hle hx (hu s1 sec1 e1 p1 st1 e2 k1 e3)
+  · rintro k1 s1 ⟨sec1, p1, st1, e1, e2, e3⟩ hle
+    exact Nat.lt_of_lt_of_le (h2 hr) (hok.mono hle hx (hu s1 sec1 e1 p1 st1 e2 k1 e3))
+
+/-! non-vacuity, through the fold: events as the parser emits them for
+    `b` / `= s` / `b` / `>> [mode]: components` / `@&(~1)… @&(=1)…` / `>> [mode]: all` / `==` / `@a`.
+    The two intermediate references are collected (table indices 0 and 1) while their step is dropped; the
+    step target 0 addresses the step of section 1 (their home), the section target 0 lies before it; the
+    used ingredient 2 has home 2.  The hypotheses of the `_of_events` theorems hold of these events. -/
+private def exUEnv : Env := { exFoldEnv with ext := ⟨Gen.EXT_MODES⟩ }
+private def exUStr (s : String) : Text := ⟨[⟨s.toList, 0, false⟩], 0, false⟩
+private def exUEvs : List (Ev Rat) := [
+  .start .step, .text (exTx 'b'), .stop .step,
+  .«section» (some (exTx 's')),
+  .start .step, .text (exTx 'b'), .stop .step,
+  .metadata (exUStr "[mode]") (exUStr "components"),
+  .start .step,
+    .ingredient ⟨⟨⟨⟨Modifiers.REF⟩, ⟨0, 0⟩⟩, some ⟨⟨true, false, 1⟩, ⟨0, 0⟩⟩, Text.empty 0, none, none, none⟩, ⟨0, 0⟩⟩,
+    .ingredient ⟨⟨⟨⟨Modifiers.REF⟩, ⟨0, 0⟩⟩, some ⟨⟨false, true, 1⟩, ⟨0, 0⟩⟩, Text.empty 0, none, none, none⟩, ⟨0, 0⟩⟩,
+  .stop .step,
+  .metadata (exUStr "[mode]") (exUStr "all"),
+  .«section» none,
+  .start .step, .ingredient ⟨⟨⟨⟨0⟩, ⟨0, 0⟩⟩, none, exTx 'a', none, none, none⟩, ⟨0, 0⟩⟩, .stop .step]
+private def exUCol : Col Rat :=
+  { sections := [⟨none, [.step ⟨[.text ['b']], 1⟩]⟩, ⟨some ['s'], [.step ⟨[.text ['b']], 1⟩]⟩,
+                 ⟨none, [.step ⟨[.ingredient 2], 1⟩]⟩],
+    ingredients := #[⟨[], none, none, none, none, ⟨.reference 0, some .step⟩, ⟨Modifiers.REF⟩⟩,
+                     ⟨[], none, none, none, none, ⟨.reference 0, some .section⟩, ⟨Modifiers.REF⟩⟩,
+                     ⟨['a'], none, none, none, none, ⟨.definition [] true, none⟩, ⟨0⟩⟩] }
+example : (parseEventsLoop exUEnv [] exUEvs {}).output.map (fun c => (c.ingredients, c.sections)) =
+    some (exUCol.ingredients, exUCol.sections) := by rfl
+example : (parseEventsLoop exUEnv [] exUEvs {}).diags.toList = [] := by rfl
+example : ∀ ev ∈ exUEvs, EvOK ev := by
+  intro ev hmem
+  simp only [exUEvs, List.mem_cons, List.mem_nil_iff, or_false] at hmem
+  rcases hmem with rfl | rfl | rfl | rfl | rfl | rfl | rfl | rfl | rfl | rfl | rfl | rfl | rfl | rfl | rfl | rfl | rfl <;>
+    simp [EvOK, Modifiers.contains]
+example : SectionsOutsideBlocks exUEvs :=
+  ⟨_, rfl, _, rfl, _, rfl, _, rfl, _, rfl, _, rfl, _, rfl, _, rfl, _, rfl, _, rfl, _, rfl, _, rfl, _, rfl, _, rfl,
+   _, rfl, _, rfl, _, rfl, trivial⟩
+-- the home assignment of that recipe: the unused ingredients 0, 1 in section 1, the used one in section 2
+example : C6uHomeOK exUCol.sections exUCol.ingredients [1, 1, 2] ∧ C6uHomeUsed exUCol.sections [1, 1, 2] := by
+  refine ⟨⟨rfl, by decide, by decide, ?_⟩, ?_⟩
+  · intro k ig x hk hx i
+    have hk3 : k < 3 := lt_size_of_getElem? hk
+    obtain rfl | rfl | rfl : k = 0 ∨ k = 1 ∨ k = 2 := by omega
+    · cases hk; cases hx
+      exact ⟨fun hr => (by cases hr; exact ⟨_, _, rfl, rfl⟩), fun hr => (by cases hr)⟩
+    · cases hk; cases hx
+      exact ⟨fun hr => (by cases hr), fun hr => (by cases hr; decide)⟩
+    · cases hk; cases hx
+      exact ⟨fun hr => (by cases hr), fun hr => (by cases hr)⟩
+  · intro si sec hs p st hp k hk
+    match si, hs with
+    | 0, hs => cases hs; match p, hp with
+      | 0, hp => cases hp; simp at hk
+    | 1, hs => cases hs; match p, hp with
+      | 0, hp => cases hp; simp at hk
+    | 2, hs => cases hs; match p, hp with
+      | 0, hp =>
+        cases hp
+        simp only [List.mem_singleton, Item.ingredient.injEq] at hk
+        subst hk; rfl
+-- a table ingredient (used by no step) whose step target is not a step position of any section is rejected:
+-- no home assignment exists
+example : ¬ ∃ homes, C6uHomeOK (α := Rat) [⟨none, [.step ⟨[.text ['b']], 1⟩]⟩]
+    #[⟨[], none, none, none, none, ⟨.reference 1, some .step⟩, ⟨Modifiers.REF⟩⟩] homes := by
+  rintro ⟨homes, hok⟩
+  obtain ⟨si, sec, st, hs, hst⟩ := (hok.exists_step 0 _ rfl 1).1 rfl
+  match si, hs with
+  | 0, hs => cases hs; cases hst
+-- … and so is a section target that is not strictly before the home (here: the only possible homes are 0, 1)
+example : ¬ ∃ homes, C6uHomeOK (α := Rat) [⟨none, [.step ⟨[.text ['b']], 1⟩]⟩]
+    #[⟨[], none, none, none, none, ⟨.reference 1, some .section⟩, ⟨Modifiers.REF⟩⟩] homes := by
+  rintro ⟨homes, hok⟩
+  have := (hok.exists_step 0 _ rfl 1).2 rfl
+  simp at this
 
 end Cook
